@@ -1,4 +1,155 @@
-(* TEMPORARY stub *)
-From Coq Require Import NArith List.
-Theorem C04_stub : 1 + 1 = 2. Proof. reflexivity. Qed.
-Print Assumptions C04_stub.
+(* C04 - Pipelining: exactly one reply per command, in order, however the bytes arrive.
+   This file holds only the property statements; proofs live in Proofs/ConnProofs.v.
+
+   Model/Conn.v is the production connection handler (read loop with the GET/SET batch collectors,
+   the GET/SET fast path, the generic RespCodec path, the protocol-error path), generic in the
+   backend.  [run g s reads] feeds the reads (the chunks successive `read` calls return, in order)
+   to a fresh connection over backend state [s] under the batching configuration [g];
+   [reference s stream] decodes the whole stream with the generic decoder only and hands every
+   frame to the command layer, one after the other.  [reads_ok g reads]: no read is empty (an empty
+   read is EOF), the stream fits max_buffer_size and is shorter than 2^62 bytes.
+   [backend_ok] (Model/Conn.v) is the contract of the backend's fast entry points: they answer
+   like state.execute on Get / Set.  [parse true] is RespCodec::parse (Model/Resp.v, property C15). *)
+From Coq Require Import String NArith ZArith List.
+From RV Require Import Lib.Hex Model.Resp Proofs.RespProofs Model.Conn Model.MiniExec Proofs.ConnProofs.
+Import ListNotations.
+
+Section Generic.
+  Variable utf8_ok : list N -> bool.
+  Variable St : Type.
+  Variable cmd : Type.
+  Variable decode_cmd : resp -> cmd + list N.
+  Variable exec : St -> cmd -> St * resp.
+  Variable fast_get : St -> list N -> St * resp.
+  Variable fast_set : St -> list N -> list N -> St * resp.
+  Variable batch_get : St -> list (list N) -> St * list resp.
+  Variable batch_set : St -> list (list N * list N) -> St * list resp.
+  Variable kind : cmd -> ckind.
+  Variable cmd_get : list N -> cmd.
+  Variable cmd_set : list N -> list N -> cmd.
+  Variable stub_reply : cmd -> resp.
+  Hypothesis BOK : backend_ok utf8_ok St cmd decode_cmd exec fast_get fast_set batch_get batch_set kind cmd_get cmd_set.
+
+  Notation RUN := (run utf8_ok St cmd decode_cmd exec fast_get fast_set batch_get batch_set kind cmd_get stub_reply).
+  Notation REFERENCE := (reference St cmd decode_cmd exec kind cmd_get stub_reply).
+  Notation HF := (handle_frame St cmd decode_cmd exec kind cmd_get stub_reply).
+  Notation REFREAD := (ref_read St cmd decode_cmd exec kind cmd_get stub_reply).
+
+  (* For every stream of well-formed frames, EVERY way of cutting it into reads (also inside a frame
+     header or payload), every pipeline depth and every (min_pipeline_buffer, batch_threshold): the
+     replies written are those of decoding the stream frame by frame and executing one command after
+     the other; the connection stays open and holds exactly the undecoded rest of the stream. *)
+  Theorem C04_handler_eq_reference : forall (g : cfg) (reads : list (list N)) (s : St),
+    reads_ok g reads -> wf_stream (concat reads) ->
+    let k := RUN g s reads in
+    output _ _ k = REFERENCE s (concat reads) /\
+    cstat _ _ k = Open /\
+    snd (decode_stream true (concat reads)) = TMore (cbuf _ _ k).
+  Proof. exact (handler_eq_reference utf8_ok St cmd decode_cmd exec fast_get fast_set batch_get batch_set kind cmd_get cmd_set stub_reply BOK). Qed.
+
+  (* Exactly one reply per command, in command order: as many replies as complete frames, and the
+     first n replies are the replies of the first n commands executed alone after one another. *)
+  Theorem C04_one_reply_per_command : forall (g : cfg) (reads : list (list N)) (s : St),
+    reads_ok g reads -> wf_stream (concat reads) ->
+    let k := RUN g s reads in
+    let frames := fst (decode_stream true (concat reads)) in
+    length (output _ _ k) = length frames /\
+    forall n, firstn n (output _ _ k) = outp _ _ (fold_left HF (firstn n frames) (core_init _ _ s)).
+  Proof. exact (one_reply_per_command utf8_ok St cmd decode_cmd exec fast_get fast_set batch_get batch_set kind cmd_get cmd_set stub_reply BOK). Qed.
+
+  (* On ANY bytes (well formed or not): fast path and batching are unobservable - read by read the
+     handler is the handler that only uses the generic decoder ... *)
+  Theorem C04_handler_eq_generic_only : forall (g : cfg) (reads : list (list N)) (s : St),
+    reads_ok g reads -> RUN g s reads = fold_left REFREAD reads (conn_init _ _ s).
+  Proof. exact (handler_eq_generic_only utf8_ok St cmd decode_cmd exec fast_get fast_set batch_get batch_set kind cmd_get cmd_set stub_reply BOK). Qed.
+
+  (* ... so the batching configuration cannot be observed either. *)
+  Theorem C04_batching_config_irrelevant : forall (g1 g2 : cfg) (reads : list (list N)) (s : St),
+    reads_ok g1 reads -> reads_ok g2 reads -> RUN g1 s reads = RUN g2 s reads.
+  Proof. exact (batching_config_irrelevant utf8_ok St cmd decode_cmd exec fast_get fast_set batch_get batch_set kind cmd_get cmd_set stub_reply BOK). Qed.
+
+  (* Whenever a recogniser accepts, RespCodec accepts the same bytes as the same frame with the same
+     length and the command layer executes it identically; when a recogniser waits, RespCodec waits. *)
+  Theorem C04_fast_path_eq_generic : forall (b : list N) (c : core St cmd),
+    size_ok b -> in_tx _ (txs _ _ c) = false ->
+    match try_fast_path utf8_ok b with
+    | FGet key n => exists nm, is_get_name nm /\ parse true b = Done (RArr [RBulk nm; RBulk key]) n /\
+                               HF c (RArr [RBulk nm; RBulk key]) = do_fast_get St cmd fast_get c key
+    | FSet key val n => exists nm, is_set_name nm /\ parse true b = Done (RArr [RBulk nm; RBulk key; RBulk val]) n /\
+                               HF c (RArr [RBulk nm; RBulk key; RBulk val]) = do_fast_set St cmd fast_set c key val
+    | FNeed => parse true b = Incomplete
+    | FNot => True
+    end.
+  Proof. exact (fast_path_eq_generic utf8_ok St cmd decode_cmd exec fast_get fast_set batch_get batch_set kind cmd_get cmd_set stub_reply BOK). Qed.
+
+  (* A malformed frame (the decoder reports a protocol error somewhere in the stream): at the read
+     that makes the error decidable the handler has answered every earlier command exactly as the
+     reference does and then writes exactly one "-ERR protocol error"; it drops its buffer and stays
+     open; before that read the task is alive and what it wrote is a prefix of those replies. *)
+  Theorem C04_malformed_gets_error : forall (g : cfg) (reads : list (list N)) (s : St) (e : errkind),
+    reads_ok g reads ->
+    snd (decode_stream true (concat reads)) = TErr e ->
+    let frames := fst (decode_stream true (concat reads)) in
+    exists j, j <= length reads /\
+      (let k := RUN g s (firstn j reads) in
+       output _ _ k = outp _ _ (fold_left HF frames (core_init _ _ s)) ++ [R_PROTO] /\
+       cbuf _ _ k = [] /\ cstat _ _ k = Open) /\
+      forall i, i < j ->
+        cstat _ _ (RUN g s (firstn i reads)) <> Dead /\
+        exists m, output _ _ (RUN g s (firstn i reads)) = firstn m (outp _ _ (fold_left HF frames (core_init _ _ s))).
+  Proof. exact (malformed_gets_error utf8_ok St cmd decode_cmd exec fast_get fast_set batch_get batch_set kind cmd_get cmd_set stub_reply BOK). Qed.
+
+  (* On ANY bytes: no Rust panic site is reached, and the handler never sits on bytes the decoder can
+     decide - what it keeps buffered is always an incomplete frame (C15_incomplete_not_stuck: some
+     continuation decides it).  No silent stall, no crash. *)
+  Theorem C04_no_silent_stall_no_crash : forall (g : cfg) (reads : list (list N)) (s : St),
+    reads_ok g reads ->
+    let k := RUN g s reads in
+    cstat _ _ k <> Dead /\ parse true (cbuf _ _ k) = Incomplete.
+  Proof. exact (never_dies_never_stalls utf8_ok St cmd decode_cmd exec fast_get fast_set batch_get batch_set kind cmd_get cmd_set stub_reply BOK). Qed.
+End Generic.
+
+(* On the wire: if the command layer only answers encodable values (status and error replies are
+   single lines - the repairs ebb0c2b / 44a2094 / C04-error-line; nesting below 32), the bytes the
+   reference writes decode back into exactly its replies: a client counts one reply per command. *)
+Theorem C04_wire_one_reply_per_reply : forall (St cmd : Type) (decode_cmd : resp -> cmd + list N)
+    (exec : St -> cmd -> St * resp) (kind : cmd -> ckind) (cmd_get : list N -> cmd) (stub_reply : cmd -> resp),
+  (forall s cm, wf_resp 31 (snd (exec s cm)) = true) ->
+  (forall cm, wf_resp 31 (stub_reply cm) = true) ->
+  forall (s : St) (stream : list N),
+    let rs := reference St cmd decode_cmd exec kind cmd_get stub_reply s stream in
+    size_ok (wire rs) -> decode_stream true (wire rs) = (rs, TMore []).
+Proof. exact reference_wire_decodes. Qed.
+
+(* The hypotheses are satisfiable: the mini backend of the correspondence check is an instance. *)
+Theorem C04_backend_ok_inhabited :
+  backend_ok mutf8_ok (list (list N * mval)) mcmd mdecode mexec mfast_get mfast_set mbatch_get mbatch_set
+             mkind CGet CSet.
+Proof. exact mini_backend_ok. Qed.
+
+Print Assumptions C04_handler_eq_reference.
+Print Assumptions C04_one_reply_per_command.
+Print Assumptions C04_handler_eq_generic_only.
+Print Assumptions C04_batching_config_irrelevant.
+Print Assumptions C04_fast_path_eq_generic.
+Print Assumptions C04_malformed_gets_error.
+Print Assumptions C04_no_silent_stall_no_crash.
+Print Assumptions C04_wire_one_reply_per_reply.
+Print Assumptions C04_backend_ok_inhabited.
+
+(* A concrete non-trivial instance: SET k v | GET k | PING | get k cut into three reads inside the
+   SET payload and inside the second GET header, min_pipeline_buffer 1, batch_threshold 1 (the batch
+   collectors engage), over the mini backend; and the same stream followed by a malformed frame. *)
+Local Open Scope string_scope.
+Example C04_nonvacuous :
+  let stream := unhex "2a330d0a24330d0a5345540d0a24310d0a6b0d0a24310d0a760d0a2a320d0a24330d0a4745540d0a24310d0a6b0d0a2a310d0a24340d0a50494e470d0a2a320d0a24330d0a6765740d0a24310d0a6b0d0a" in
+  let reads := [firstn 25 stream; firstn 40 (skipn 25 stream); skipn 65 stream] in
+  let g := mk_cfg 1 1 1048576 in
+  reads_ok g reads /\ concat reads = stream /\ wf_stream stream /\
+  output _ _ (mrun g reads) = [RSimple (str "OK"); RBulk (str "v"); RSimple (str "PONG"); RBulk (str "v")] /\
+  mreference stream = output _ _ (mrun g reads) /\
+  (let bad := app stream (unhex "2a320d0a24330d0a4745540d0a2431783b0d0a") in
+   exists e, snd (decode_stream true bad) = TErr e /\
+             output _ _ (mrun g [firstn 30 bad; skipn 30 bad]) = app (mreference stream) [R_PROTO]).
+Proof. exact nonvacuous_c04. Qed.
+Print Assumptions C04_nonvacuous.
